@@ -33,7 +33,7 @@ struct Cfg {
 static const char* REF = "C02";   // what the generic oracles refute (the property of the scenario)
 
 struct MBlk { void* p; size_t n; size_t u; uint64_t id; };
-struct Event { uint64_t ts; uint64_t id; uintptr_t p; size_t u; int kind; int tid; };   // kind 1 alloc, 0 free
+struct Event { uint64_t ts; uint64_t id; uintptr_t p; size_t u; int kind; int tid; int sp; };   // kind 1 alloc, 0 free; sp = sub-process of the thread
 
 static std::atomic<uint64_t> g_ts(1), g_ids(1);
 static std::atomic<uint64_t> g_allocs(0), g_frees_local(0), g_frees_remote(0), g_sends(0), g_recvs(0), g_verified(0), g_collects(0), g_alloc_null(0), g_thread_exits(0), g_thread_starts(0), g_heap_deletes(0), g_claims(0), g_claim_fail(0);
@@ -41,6 +41,7 @@ static std::atomic<int> g_running(0);
 
 struct ThreadCtx {
   int tid = 0;
+  int sp = 0;                      // sub-process index of this thread (C09)
   vf_rng_t rng;
   std::vector<Event> log;
   std::vector<MBlk> mine;          // blocks this thread currently holds
@@ -122,7 +123,7 @@ static bool do_alloc(ThreadCtx& t, MBlk* out, mi_heap_t* heap = nullptr, size_t 
   MBlk b; b.p = p; b.n = n; b.u = mi_usable_size(p); b.id = g_ids.fetch_add(1, std::memory_order_relaxed);
   if (b.u < n) vf_trip("usable-size", "C03", "mt: usable %zu < requested %zu", b.u, n);
   // the timestamp is taken AFTER the allocation returned
-  Event e; e.ts = g_ts.fetch_add(1, std::memory_order_relaxed); e.id = b.id; e.p = (uintptr_t)p; e.u = (b.u ? b.u : 1); e.kind = 1; e.tid = t.tid;
+  Event e; e.ts = g_ts.fetch_add(1, std::memory_order_relaxed); e.id = b.id; e.p = (uintptr_t)p; e.u = (b.u ? b.u : 1); e.kind = 1; e.tid = t.tid; e.sp = t.sp;
   t.log.push_back(e);
   fill(b);
   g_allocs.fetch_add(1, std::memory_order_relaxed);
@@ -133,7 +134,7 @@ static bool do_alloc(ThreadCtx& t, MBlk* out, mi_heap_t* heap = nullptr, size_t 
 static void do_free(ThreadCtx& t, const MBlk& b, bool remote) {
   verify(b, "before free");
   // the timestamp is taken BEFORE the free is called
-  Event e; e.ts = g_ts.fetch_add(1, std::memory_order_relaxed); e.id = b.id; e.p = (uintptr_t)b.p; e.u = (b.u ? b.u : 1); e.kind = 0; e.tid = t.tid;
+  Event e; e.ts = g_ts.fetch_add(1, std::memory_order_relaxed); e.id = b.id; e.p = (uintptr_t)b.p; e.u = (b.u ? b.u : 1); e.kind = 0; e.tid = t.tid; e.sp = t.sp;
   t.log.push_back(e);
   vf_cur_what = "mt free";
   mi_free(b.p);
@@ -153,7 +154,7 @@ static ThreadCtx* new_ctx(uint64_t salt) {
 // ------------------------------------------------------------------------------------------------
 // offline checker: replay all events in timestamp order against an interval map
 // ------------------------------------------------------------------------------------------------
-static uint64_t g_events = 0, g_max_live_replay = 0;
+static uint64_t g_events = 0, g_max_live_replay = 0, g_subproc_checked = 0;
 static void replay_lifetimes() {
   std::vector<Event> all;
   int n = g_nctx.load();
@@ -162,6 +163,7 @@ static void replay_lifetimes() {
   g_events = all.size();
   std::map<uintptr_t, Event> live;   // by start address
   std::map<uint64_t, uintptr_t> by_id;
+  std::map<uintptr_t, std::pair<int, long>> seg;   // 32 MiB segment base -> (sub-process of its live blocks, live count)   (C09)
   for (const Event& e : all) {
     if (e.kind == 1) {
       auto it = live.lower_bound(e.p);
@@ -171,12 +173,21 @@ static void replay_lifetimes() {
       if (hit != nullptr)
         vf_trip("lifetime-overlap", REF, "block id=%llu [%p,+%zu) returned to thread %d at ts %llu while block id=%llu [%p,+%zu) (thread %d, ts %llu) was still live: two owners of the same memory",
                 (unsigned long long)e.id, (void*)e.p, e.u, e.tid, (unsigned long long)e.ts, (unsigned long long)hit->id, (void*)hit->p, hit->u, hit->tid, (unsigned long long)hit->ts);
+      if (C.subprocs > 1 && e.sp != 0) {
+        auto& sg = seg[e.p & ~(uintptr_t)(32 * MiB - 1)];
+        if (sg.second > 0 && sg.first != e.sp)
+          vf_trip("cross-subprocess-adoption", "C09", "thread %d of sub-process %d received block id=%llu at %p inside a segment that still holds %ld live blocks of sub-process %d (abandoned memory adopted across sub-processes)",
+                  e.tid, e.sp, (unsigned long long)e.id, (void*)e.p, sg.second, sg.first);
+        sg.first = e.sp; sg.second++;
+        g_subproc_checked++;
+      }
       live[e.p] = e; by_id[e.id] = e.p;
       if (live.size() > g_max_live_replay) g_max_live_replay = live.size();
     }
     else {
       auto it = by_id.find(e.id);
       if (it == by_id.end()) vf_trip("harness", "", "free of unknown id %llu in the event log", (unsigned long long)e.id);
+      if (C.subprocs > 1) { auto lf = live.find(it->second); if (lf != live.end() && lf->second.sp != 0) { auto sgi = seg.find(lf->second.p & ~(uintptr_t)(32 * MiB - 1)); if (sgi != seg.end() && sgi->second.second > 0) sgi->second.second--; } }
       live.erase(it->second); by_id.erase(it);
     }
   }
@@ -355,7 +366,7 @@ static void spawn_exit_thread(int gen, int slot) {
 static void exit_body(void* arg) {
   ExitArg* a = (ExitArg*)arg; ThreadCtx& t = *a->t;
   int slot = a->slot;
-  if (C.subprocs > 1) mi_subproc_add_current_thread(g_subproc[slot % 2]);
+  if (C.subprocs > 1) { mi_subproc_add_current_thread(g_subproc[slot % 2]); t.sp = 1 + (slot % 2); }
   int T = C.threads;
   for (uint64_t op = 0; op < C.ops; op++) {
     vf_cur_op = op;
@@ -433,7 +444,7 @@ static void arena_body(void* arg) {
       if ((uint8_t*)p < g_arena_base || (uint8_t*)p + n > g_arena_base + g_arena_size)
         vf_trip("outside-arena", "C14,C15", "heap bound to the arena returned %p (+%zu) outside the arena [%p,+%zu)", p, n, (void*)g_arena_base, g_arena_size);
       MBlk b; b.p = p; b.n = n; b.u = mi_usable_size(p); b.id = g_ids.fetch_add(1, std::memory_order_relaxed);
-      Event e; e.ts = g_ts.fetch_add(1, std::memory_order_relaxed); e.id = b.id; e.p = (uintptr_t)p; e.u = b.u; e.kind = 1; e.tid = t.tid; t.log.push_back(e);
+      Event e; e.ts = g_ts.fetch_add(1, std::memory_order_relaxed); e.id = b.id; e.p = (uintptr_t)p; e.u = b.u; e.kind = 1; e.tid = t.tid; e.sp = t.sp; t.log.push_back(e);
       stamp(b);
       g_ar_by_len[blocks].fetch_add(1, std::memory_order_relaxed);
       g_allocs.fetch_add(1, std::memory_order_relaxed);
@@ -443,14 +454,14 @@ static void arena_body(void* arg) {
       size_t i = (size_t)vf_rng_below(&t.rng, t.mine.size());
       MBlk b = t.mine[i]; t.mine[i] = t.mine.back(); t.mine.pop_back();
       check_stamp(b, "before free");
-      Event e; e.ts = g_ts.fetch_add(1, std::memory_order_relaxed); e.id = b.id; e.p = (uintptr_t)b.p; e.u = b.u; e.kind = 0; e.tid = t.tid; t.log.push_back(e);
+      Event e; e.ts = g_ts.fetch_add(1, std::memory_order_relaxed); e.id = b.id; e.p = (uintptr_t)b.p; e.u = b.u; e.kind = 0; e.tid = t.tid; e.sp = t.sp; t.log.push_back(e);
       vf_cur_what = "arena free";
       mi_free(b.p);
       g_frees_local.fetch_add(1, std::memory_order_relaxed);
     }
     else if (r >= 90) { vf_cur_what = "arena collect"; if (vf_rng_chance(&t.rng, 1, 2)) vf_clock_advance_ms(200); mi_collect(vf_rng_chance(&t.rng, 1, 2)); g_collects.fetch_add(1, std::memory_order_relaxed); }
   }
-  for (auto& b : t.mine) { check_stamp(b, "final"); Event e; e.ts = g_ts.fetch_add(1, std::memory_order_relaxed); e.id = b.id; e.p = (uintptr_t)b.p; e.u = b.u; e.kind = 0; e.tid = t.tid; t.log.push_back(e); mi_free(b.p); }
+  for (auto& b : t.mine) { check_stamp(b, "final"); Event e; e.ts = g_ts.fetch_add(1, std::memory_order_relaxed); e.id = b.id; e.p = (uintptr_t)b.p; e.u = b.u; e.kind = 0; e.tid = t.tid; e.sp = t.sp; t.log.push_back(e); mi_free(b.p); }
   t.mine.clear();
   vf_cur_what = "arena heap delete";
   mi_collect(true);
@@ -494,11 +505,11 @@ static void result_body(FILE* f) {
   fprintf(f, "\"scenario\":\"%s\",\"variant\":\"%s\",\"seed\":%llu,\"threads\":%d,\"hash\":\"%016llx\",", C.scenario.c_str(), C.variant.c_str(), (unsigned long long)C.seed, C.threads,
           (unsigned long long)(st.sched_hash ^ (g_allocs.load() * 1000003ull) ^ (g_frees_remote.load() << 20)));
   fprintf(f, "\"mt\":{\"allocs\":%llu,\"alloc_null\":%llu,\"local_frees\":%llu,\"remote_frees\":%llu,\"sends\":%llu,\"recvs\":%llu,\"verified\":%llu,\"collects\":%llu,\"thread_starts\":%llu,\"thread_exits\":%llu,"
-             "\"heap_deletes\":%llu,\"claims\":%llu,\"claims_failed\":%llu,\"events\":%llu,\"max_live_in_replay\":%llu,\"abandoned_blocks_left\":%zu,\"final_checked\":%d,\"probe_single\":%zu,\"probe_whole\":%d},",
+             "\"heap_deletes\":%llu,\"claims\":%llu,\"claims_failed\":%llu,\"events\":%llu,\"max_live_in_replay\":%llu,\"abandoned_blocks_left\":%zu,\"final_checked\":%d,\"probe_single\":%zu,\"probe_whole\":%d,\"subproc_allocs_checked\":%llu},",
           (unsigned long long)g_allocs.load(), (unsigned long long)g_alloc_null.load(), (unsigned long long)g_frees_local.load(), (unsigned long long)g_frees_remote.load(), (unsigned long long)g_sends.load(),
           (unsigned long long)g_recvs.load(), (unsigned long long)g_verified.load(), (unsigned long long)g_collects.load(), (unsigned long long)g_thread_starts.load(), (unsigned long long)g_thread_exits.load(),
           (unsigned long long)g_heap_deletes.load(), (unsigned long long)g_claims.load(), (unsigned long long)g_claim_fail.load(), (unsigned long long)g_events, (unsigned long long)g_max_live_replay,
-          g_abandoned_left, g_final_checked, g_probe_single, g_probe_whole);
+          g_abandoned_left, g_final_checked, g_probe_single, g_probe_whole, (unsigned long long)g_subproc_checked);
   fprintf(f, "\"sched\":{\"mode\":%d,\"policy\":%d,\"points\":%llu,\"switches\":%llu,\"forced\":%llu,\"spurious_cas\":%llu,\"delays\":%llu,\"hash\":\"%016llx\",\"budget_exceeded\":%d,\"threads_created\":%d},",
           C.sched.mode, C.sched.policy, (unsigned long long)st.points, (unsigned long long)st.switches, (unsigned long long)st.forced_switches, (unsigned long long)st.spurious, (unsigned long long)st.delays,
           (unsigned long long)st.sched_hash, st.budget_exceeded, st.threads_created);
